@@ -26,7 +26,7 @@ for q in cons:
         print(f'{q}: OUT OF SUBSET: {e}')
     except Exception:
         traceback.print_exc()
-if eng.lemmas and not filt:
+if (eng.lemmas or eng.inductive) and not filt:
     lo = eng.generate_lemmas(modname, eng.lemmas)
     print(f'lemmas: {len(lo)}')
     allobl += lo
